@@ -304,6 +304,15 @@ func extractC08(c *ctx) (Facts, error) {
 	if fd := get(rel, "Router", "decorateHandlerSubscriber"); fd != nil && len(fd.Type.Params.List) == 1 {
 		hp := fd.Type.Params.List[0].Names[0].Name
 		facts["subscriber_transform_adds_own_handler_context"] = strings.Contains(c.src(fd), hp+".addHandlerContext(msg)")
+		// the context decorator is applied to EVERY handler's subscriber: a top-level statement, under no condition
+		// (whatever the subscriber the application handed over is, e.g. one it wrapped itself with the same decorator type)
+		uncond := false
+		for _, st := range fd.Body.List {
+			if as, ok := st.(*ast.AssignStmt); ok && len(as.Rhs) == 1 && strings.HasPrefix(c.src(as.Rhs[0]), "MessageTransformSubscriberDecorator(") {
+				uncond = true
+			}
+		}
+		facts["subscriber_context_decorator_unconditional"] = uncond
 	}
 	// ---- handleMessage / publishProducedMessages
 	if fd := get(rel, "handler", "handleMessage"); fd != nil && len(fd.Type.Params.List) == 2 {
